@@ -177,6 +177,17 @@ CHECKS: dict[str, dict] = {
         "equal the crop, never bleed colours and have exactly the requested size.",
         design_ref="DESIGN.md 3 C17, notes/C17.md",
     ),
+    "C19": dict(
+        technique="the documented grammar as a TLA+ recogniser with denotation (FormatSpec.tla; three formulations "
+        "checked equivalent and unambiguous by TLC); every string of the specifier alphabet up to a length "
+        "bound fed to the real entry points and judged by TLC (Trace_FormatSpec.tla)",
+        text="TLC checks that the recogniser, the declarative grammar and the production machine agree and that "
+        "every production fires; all strings over the core alphabet up to length 4 (quick) / 5 (thorough), "
+        "style suffixes, documentation examples, boundary literals and random near-sentences are passed to "
+        "_check_format_spec, format(), ImageIterator and UrwidImage; accept/reject, error class, denoted "
+        "values, absence of side effects and format == draw are judged against the spec.",
+        design_ref="DESIGN.md 3 C19, notes/C19.md",
+    ),
     "C20": dict(
         technique="TLA+ inheritance model of style settings (StyleSettings.tla) explored by TLC; every edge replayed "
         "on dynamically created subclasses of the real style classes; recorded set/unset histories "
